@@ -29,12 +29,47 @@ Definition trunc (c n : Z) : Z := if slen c <=? n then c else if n <=? 0 then 0 
 (* the write accesses of String, all through detach(copyLength, minCapacity):
    SPush m    append(char m): detach(len, len + 1), then the marker is stored (m = 0: detach() = detach(len, len));
    STrunc n   resize(min(n, len)) = detach(k, k): the first k markers stay;
-   SReserve n reserve(n) = detach(len, max(len, n)): the contents stay. *)
-Inductive smode := SPush (m : Z) | STrunc (n : Z) | SReserve (n : Z).
+   SReserve n reserve(n) = detach(len, max(len, n)): the contents stay;
+   SMap, SCat: below. *)
+(* the markers of a contents value, first marker first, and back (a marker 0 is dropped) *)
+Fixpoint markers_fuel (n : nat) (c : Z) (acc : list Z) : list Z :=
+  match n with O => acc | S k => if c <=? 0 then acc else markers_fuel k (c / 8) (c mod 8 :: acc) end.
+Definition markers (c : Z) : list Z := markers_fuel (Z.to_nat (slen c)) c [].
+Definition unmarkers (l : list Z) : Z := fold_left push l 0.
+Definition cat (a b : Z) : Z := unmarkers (markers a ++ markers b).
+(* the character-wise modifiers of String.  The harness writes marker 1,2,3 as 'a','b','c', 4,5,6 as 'A','B','C'
+   and 7 as ' ': toLowerCase maps 4,5,6 to 1,2,3, toUpperCase the other way, replace(a, b) one marker to another *)
+Inductive mapk := MLower | MUpper | MRepl (a b : Z).
+Definition mapm (k : mapk) (m : Z) : Z :=
+  match k with
+  | MLower => if (4 <=? m) && (m <=? 6) then m - 3 else m
+  | MUpper => if (1 <=? m) && (m <=? 3) then m + 3 else m
+  | MRepl a b => if m =? a then b else m
+  end.
+(* trim(chars): the markers of [set] are dropped at both ends; substr / a pointer into the own text *)
+Fixpoint drop_in (set l : list Z) : list Z :=
+  match l with m :: t => if existsb (Z.eqb m) set then drop_in set t else l | [] => [] end.
+Definition trimv (set c : Z) : Z :=
+  let st := markers set in unmarkers (rev (drop_in st (rev (drop_in st (markers c))))).
+Definition subv (c off len : Z) : Z := unmarkers (firstn (Z.to_nat len) (skipn (Z.to_nat off) (markers c))).
+(* the write accesses of String, all through detach(copyLength, minCapacity):
+   SMap k     toLowerCase / toUpperCase / replace(char, char) / a store through operator char*: detach(len, len), then
+              the characters are rewritten where they are;
+   SCat f c2  append(const String&) / append(const char*, n) / operator+= (f = false) and prepend (f = true):
+              detach(len | 0, len + n), then the characters c2 are copied behind (in front of) the own ones. *)
+Inductive smode := SPush (m : Z) | STrunc (n : Z) | SReserve (n : Z) | SMap (k : mapk) | SCat (front : bool) (c2 : Z).
 Definition str_newval (md : smode) (c : Z) : Z :=
-  match md with SPush m => push c m | STrunc n => trunc c n | SReserve _ => c end.
+  match md with
+  | SPush m => push c m | STrunc n => trunc c n | SReserve _ => c
+  | SMap k => unmarkers (map (mapm k) (markers c))
+  | SCat front c2 => if front then cat c2 c else cat c c2
+  end.
 Definition str_need (md : smode) (c : Z) : Z :=
-  match md with SPush m => slen (push c m) | STrunc n => Z.max 0 (Z.min n (slen c)) | SReserve n => Z.max (slen c) n end.
+  match md with
+  | SPush m => slen (push c m) | STrunc n => Z.max 0 (Z.min n (slen c)) | SReserve n => Z.max (slen c) n
+  | SMap _ => slen c
+  | SCat _ c2 => slen c + slen c2
+  end.
 Inductive handle := HNone | HBlock (b : nat).
 Inductive var := VDead | VLive (refh objh : handle).
 Inductive fault := FUaf (b : nat) | FDouble (b : nat) | FUnderflow (b : nat) | FSharedWrite (b : nat).
@@ -42,7 +77,9 @@ Inductive fault := FUaf (b : nat) | FDouble (b : nat) | FUnderflow (b : nat) | F
 Record block := { rc : Z; freed : bool; val : Z; cap : Z; dtors : nat }.
 Record state := { heap : list block; vars : list var; flt : option fault }.
 
-Definition nvars : nat := 6.
+(* six variables of the case, plus one (index 6) for the handle the library itself constructs inside a call:
+   `String copy( *this)` of prepend, `Variant tmp = other` of Variant::swap, the String returned by substr in trim *)
+Definition nvars : nat := 7.
 Definition init : state := {| heap := []; vars := repeat VDead nvars; flt := None |}.
 
 Definition dead_block : block := {| rc := 0; freed := true; val := 0; cap := 0; dtors := 0 |}.
@@ -129,7 +166,13 @@ Inductive op :=
 | ODetach (v : nat)              (* s.detach() | v.toList() : write access only *)
 | ODestroy (v : nat)             (* v.~H() *)
 | OResize (v : nat) (n : Z)      (* String only: s.resize(min(n, s.length())) *)
-| OReserve (v : nat) (n : Z).    (* String only: s.reserve(n) *)
+| OReserve (v : nat) (n : Z)     (* String only: s.reserve(n) *)
+| OStrMod (v : nat) (md : smode) (* String only: any modifier that is `detach(..); write into the own block`: toLowerCase, toUpperCase,
+                                    replace(char, char), operator char*, append(const char*, n), prepend(const char*, n) *)
+| OStrCatV (front : bool) (d sv : nat)  (* String only: d.append(sv) | d += sv | d.prepend(sv): the argument is a handle, possibly d itself
+                                           or another handle to d's payload *)
+| ORetype (v : nat) (c : Z).     (* Variant / Xml::Variant: write accessor or value assignment of ANOTHER type than the one stored
+                                    (`type != T` branch): always a new payload with contents c, the old one is released unread *)
 
 (* write access of String: detach(copyLength, minCapacity) in mode md: in place iff `ref == 1 && minCapacity <=
    capacity`, else a new block of capacity minCapacity | 3 that receives the (first copyLength) characters *)
@@ -189,6 +232,21 @@ Definition assign_val (f : flavour) (s : state) (v : nat) (h : handle) (c : Z) :
       setv s v (both (HBlock nb))
   end.
 
+(* the `type != T` half of the write accessors and value assignments: Variant allocates, then clear(); Xml::Variant
+   clear()s first.  The old payload is not read (the new one is copy-constructed from a static empty object or from the
+   argument). *)
+Definition retype (f : flavour) (s : state) (v : nat) (h : handle) (c : Z) : state :=
+  match f with
+  | FXml => let s := release FVar s h in
+            let '(s, nb) := alloc s 1 c 0 in setv s v (both (HBlock nb))
+  | _ => let '(s, nb) := alloc s 1 c 0 in
+         let s := release FVar s h in setv s v (both (HBlock nb))
+  end.
+
+(* reading the text through a String handle (str.data->str, str.data->len) *)
+Definition touch_var (s : state) (v : nat) : state :=
+  match nth v (vars s) VDead with VLive (HBlock b) _ => touch s b | _ => s end.
+
 (* the repaired swap exchanges both fields; [swap_obj_only] is the code as written *)
 Definition ptr_swap (obj_only : bool) (s : state) (a b : nat) (ra oa rb ob : handle) : state :=
   if obj_only then setv (setv s b (VLive rb oa)) a (VLive ra ob)
@@ -196,8 +254,9 @@ Definition ptr_swap (obj_only : bool) (s : state) (a b : nat) (ra oa rb ob : han
 
 Definition op_vars (o : op) : list nat :=
   match o with
-  | OCreate v _ | ONull v | OReset v | OWrite v _ | ODetach v | ODestroy v | OAssignVal v _ | OResize v _ | OReserve v _ => [v]
-  | OCopy a b | OFromRaw a b | OAssign a b | OSwap a b | OAssignRaw a b => [a; b]
+  | OCreate v _ | ONull v | OReset v | OWrite v _ | ODetach v | ODestroy v | OAssignVal v _ | OResize v _ | OReserve v _
+  | OStrMod v _ | ORetype v _ => [v]
+  | OCopy a b | OFromRaw a b | OAssign a b | OSwap a b | OAssignRaw a b | OStrCatV _ a b => [a; b]
   end.
 
 Definition step_gen (obj_only : bool) (f : flavour) (s : state) (o : op) : state :=
@@ -342,6 +401,29 @@ Definition step_gen (obj_only : bool) (f : flavour) (s : state) (o : op) : state
       | FStr, VLive r _ => str_detach s v r (SReserve n)
       | _, _ => s
       end
+  | OStrMod v md =>
+      match f, getv s v with
+      | FStr, VLive r _ => str_detach s v r md
+      | _, _ => s
+      end
+  | OStrCatV front d sv =>
+      (* newLen = len + str.data->len; detach(.., newLen); Memory::copy(.., str.data->str, ..): the argument's text is
+         read AFTER the detach (for d.append(d) that is d's new block; prepend keeps the old block alive through a
+         local copy of the handle: the driver issues `copy tmp d` before and `destroy tmp` after this op) *)
+      match f, getv s d, getv s sv with
+      | FStr, VLive rd _, VLive rs _ =>
+          let c2 := match rs with HBlock b => val (getb s b) | HNone => 0 end in
+          let s := match rs with HBlock b => touch s b | HNone => s end in
+          let s := str_detach s d rd (SCat front c2) in
+          touch_var s sv
+      | _, _, _ => s
+      end
+  | ORetype v c =>
+      match f, getv s v with
+      | FVar, VLive r _ => retype FVar s v r c
+      | FXml, VLive r _ => retype FXml s v r c
+      | _, _ => s
+      end
   end end.
 
 Definition step : flavour -> state -> op -> state := step_gen false.
@@ -384,6 +466,11 @@ Definition step_obs (obj_only : bool) (f : flavour) (s : state) (o : op) : state
   | Some _ => (s, [])
   | None => observe_vars s (vars s)
   end.
+
+(* the contents a variable reads (no access check): the driver computes state-dependent arguments with it
+   (trim assigns substr(..) of the own text, append(p, n) with p pointing into the own text) *)
+Definition peek (s : state) (v : nat) : Z :=
+  match getv s v with VLive _ (HBlock b) => val (getb s b) | _ => 0 end.
 
 (* end of a case: destroy every live variable *)
 Definition destroy_all (f : flavour) (s : state) : state :=
